@@ -849,7 +849,12 @@ func (e *specEnv) call(n *ast.CallExpr) Val {
 				fs = append(fs, eq(sel(sel(e.t.heapGet(e.cur, hn, arr2Sort(c.Sort)), s.C[0]), bv), sel(sel(e.t.heapGet(e.old, hn, arr2Sort(c.Sort)), s.C[0]), bv)))
 			}
 			rng := and(le(add(s.C[1], lo), bv), lt(bv, add(s.C[1], hi)))
-			qf := fmt.Sprintf("(forall ((%s Int)) %s)", bv, imp(rng, and(fs...)))
+			var pats []string
+			for _, c := range flatten(sl.Elem()) {
+				hn := elemHeap(sl.Elem(), c.Suffix)
+				pats = append(pats, ":pattern ("+sel(sel(e.t.heapGet(e.cur, hn, arr2Sort(c.Sort)), s.C[0]), bv)+")")
+			}
+			qf := fmt.Sprintf("(forall ((%s Int)) (! %s %s))", bv, imp(rng, and(fs...)), strings.Join(pats, " "))
 			regFinite(qf, bv, add(s.C[1], lo), imp(rng, and(fs...)))
 			return Val{tBool, []string{qf}}
 		case "preservedexcept":
@@ -1170,6 +1175,15 @@ func (e *specEnv) typeExpr(x ast.Expr) types.Type {
 			if T := e.typeExpr(n.Elt); T != nil {
 				return types.NewSlice(T)
 			}
+		}
+	case *ast.MapType:
+		K, V := e.typeExpr(n.Key), e.typeExpr(n.Value)
+		if K != nil && V != nil {
+			return types.NewMap(K, V)
+		}
+	case *ast.InterfaceType:
+		if n.Methods == nil || len(n.Methods.List) == 0 {
+			return types.NewInterfaceType(nil, nil)
 		}
 	}
 	return nil
